@@ -292,7 +292,7 @@ def model_answer(chk, term):
 
 
 def sig_for(case, is_rt, obs):
-    if case['kind'] in ('csv_write', 'csv_read', 'csv_file'):
+    if case['kind'] in ('csv_write', 'csv_read', 'csv_file', 'csv_text'):
         return 'C15:' + case['kind']
     if case['kind'] == 'history':
         if is_rt:
@@ -315,6 +315,13 @@ def report(chk, cases, obs, failing, rtfail, limit=4):
         if sig in seen or len(seen) >= limit:
             continue
         seen[sig] = 1
+        if cases[i]['kind'] in ('csv_write', 'csv_read', 'csv_file', 'csv_text') and not is_rt:
+            # the exact text of a row / a file and the behaviour on malformed files are fixed by the model, not by the property
+            # (which asks for a lossless round trip - evaluated directly on every history with csv=True)
+            chk.correspondence_break(sig, {'case': cases[i], 'impl': {k: v for k, v in obs[i].items() if k != 'table'}, 'theorem': THEOREM,
+                                           'broken': ['Corr.C15.check_ccase (CCsvWrite / CCsvRead / CCsvFileWrite / CCsvFileRead): the CSV codec model vs the csv module / to_csv / from_csv']},
+                                     what=f'{sig}: the CSV text written or the result of reading a file differs from the codec model: {json.dumps(cases[i])[:300]}')
+            continue
         small = shrink_history(chk, cases[i]) if cases[i]['kind'] == 'history' else cases[i]
         terms, o, f, rt = evaluate(chk, [small], tag='final')
         chk.report_violation(sig, {'case': small, 'impl': o[0], 'model_agrees': model_answer(chk, terms[0]) if 0 in terms else 'n/a',
